@@ -64,4 +64,14 @@ def specReverted (ids : List Nat) (marks : List (Nat × Nat)) : List (Int × Opt
 def lastCols (outs : List (String × List (List String))) : List (List String) :=
   outs.map fun o => o.2.map fun row => row.getLast?.getD ""
 
+
+/-- (address, first usage, insertion date, metadata) of the accounts of the ledger -/
+def acctView (w : World) : List (String × Int × Int × List (String × String)) :=
+  (accountsAbs w "_default" "ledger0").map (fun e => (e.1, e.2.firstUsage, e.2.insertionDate, e.2.metadata))
+
+/-- (address, metadata text, revision) of the account-metadata history, in insertion order -/
+def acctHistView (w : World) : List (String × String × String) :=
+  (committed w "_default.accounts_metadata").map (fun tv =>
+    ((fieldOf tv "accounts_address").toText, (fieldOf tv "metadata").toText, (fieldOf tv "revision").toText))
+
 end Ledger.Sql.Run
